@@ -4,7 +4,10 @@ graphtools.mwpm / mwpm_networkx return on generated graphs; SimpleGraph contents
 model of add_edge after every insertion sequence; the property is also evaluated directly with an
 independent subset-DP in Python.  Besides random graphs: structured families over small weight alphabets, and operation
 histories on ONE SimpleGraph object (harness/c13_extra.py; model Decoders/MatchingHist.v, engine command `hist`): every
-matcher call is judged on the content of the object at the time of the call."""
+matcher call is judged on the content of the object at the time of the call.  Dense graphs with 60-153 edges (complete /
+complete bipartite on 12-20 nodes) over every weight source incl. sign-structured ones: decided by the verified memoised
+checker is_min_pm_memo (Decoders/MatchingMemo.v via MatchingMin.v, proved equal to is_min_pm; command `mcheck`) and by the
+independent subset DP."""
 import itertools
 import json
 from fractions import Fraction
@@ -16,6 +19,7 @@ WEIGHT_KINDS = ('small-int', 'dyadic', 'negative', 'zero', 'ties', 'tiny-float',
 NODE_KINDS = ('int', 'tuple2', 'tuple3', 'txy-bool', 'identity', 'identity-dup', 'mixed-tuples')
 DENSITIES = (1.0, 0.7, 0.4)
 DP_MAX = 16
+DENSE_DP_MAX = 20        # the dense-large stream (the memoised DP visits few subsets of a dense graph: K20 0.04 s)
 HIST_WEIGHT_KINDS = ('small-int', 'dyadic', 'negative', 'zero', 'ties')
 
 
@@ -68,7 +72,8 @@ def graph_job(job):
         if fresh and isinstance(o, tuple):
             return tuple(list(o))        # an equal but distinct tuple object: must be the same node
         return o
-    return execute_graph(gt, [(obj(a, f), obj(b, f), w) for a, b, w, f in job['ops']], job['steps'])
+    return execute_graph(gt, [(obj(a, f), obj(b, f), w) for a, b, w, f in job['ops']], job['steps'],
+                         dp_max=job.get('dp_max', DP_MAX), spread=job.get('spread', False))
 
 
 def graph_jobs(jobs):
@@ -81,8 +86,11 @@ def history_job(job):
     import qecsim.graphtools as gt
     rng = random.Random(job['seed'])
     objs = [build_node(sp) for sp in make_nodes(rng, job['npool'], job['nodes'])]
-    h = extra.gen_history(gt, objs, rng.getrandbits(48), make_weight, HIST_WEIGHT_KINDS, job['nmax'], direct_eval)
+    h = extra.gen_history(gt, objs, rng.getrandbits(48), make_weight, HIST_WEIGHT_KINDS, job['nmax'], direct_eval,
+                          dense_max=job.get('dense_max', 8))
     h['meta'] = {'kind': 'hist', 'seed': job['seed'], 'nodes': job['nodes'], 'npool': job['npool'], 'nmax': job['nmax']}
+    if 'dense_max' in job:
+        h['meta']['dense_max'] = job['dense_max']
     return h
 
 
@@ -90,7 +98,7 @@ def history_jobs(jobs):
     return [history_job(j) for j in jobs]
 
 
-def execute_graph(gt, ops_nodes, steps):
+def execute_graph(gt, ops_nodes, steps, dp_max=None, spread=False):
     ids = {}
 
     def nid(x):
@@ -115,8 +123,11 @@ def execute_graph(gt, ops_nodes, steps):
                 res.append(sorted((nid(a), nid(b)) for a, b in m))
         except Exception as e:  # noqa
             res.append('ERR ' + type(e).__name__ + ': ' + str(e)[:80])
-    ev = [direct_eval(items, r) if isinstance(r, list) else direct_eval(items, []) for r in res]
-    return {'ops': ops, 'items': items, 'res': res, 'prefixes': prefixes, 'eval': ev}
+    ev = [direct_eval(items, r if isinstance(r, list) else [], dp_max, both=spread) for r in res]
+    c = {'ops': ops, 'items': items, 'res': res, 'prefixes': prefixes, 'eval': ev}
+    if spread:      # do two perfect matchings of different weight exist (independent DP: least vs greatest total, one pass)
+        c['spread'] = weight_spread(items, dp_max)
+    return c
 
 
 def make_weight(rng, kind):
@@ -151,35 +162,75 @@ def parse_q(s):
     return Fraction(sign * int(a.lstrip('-'), 2), int(b, 2))
 
 
-def brute_min(nodes, w):
-    """independent minimum over all perfect matchings: DP over subsets; w[(i,j)] (integers) for i<j. None if there is none"""
+def brute_min(nodes, w, both=False):
+    """independent minimum over all perfect matchings: the lowest uncovered node is matched with each neighbour in turn,
+    memoised on the set of uncovered nodes; w[(i,j)] (integers) for i<j. None if there is none.
+    both=True: (minimum, maximum)"""
     n = len(nodes)
     if n % 2:
         return None
-    full = (1 << n) - 1
-    best = {0: 0}
     adj = [[(j, w[(i, j)]) for j in range(i + 1, n) if (i, j) in w] for i in range(n)]
-    for mask in range(1, full + 1):
-        if bin(mask).count('1') % 2:
-            continue
+    memo = {0: (0, 0)}
+
+    def rec(mask):
+        r = memo.get(mask, memo)
+        if r is not memo:
+            return r
         i = (mask & -mask).bit_length() - 1
-        b = None
-        rest = mask & ~(1 << i)
+        rest = mask ^ (1 << i)
+        lo = hi = None
         for j, wij in adj[i]:
             if rest >> j & 1:
-                sub = best.get(rest & ~(1 << j))
+                sub = rec(rest ^ (1 << j))
                 if sub is not None:
-                    c = sub + wij
-                    if b is None or c < b:
-                        b = c
-        if b is not None:
-            best[mask] = b
-    return best.get(full)
+                    c = sub[0] + wij
+                    if lo is None or c < lo:
+                        lo = c
+                    c = sub[1] + wij
+                    if hi is None or c > hi:
+                        hi = c
+        r = None if lo is None else (lo, hi)
+        memo[mask] = r
+        return r
+    r = rec((1 << n) - 1)
+    if both or r is None:
+        return r
+    return r[0]
 
 
-def direct_eval(items, matching):
+_DP_MEMO = [None, None]     # the last graph evaluated and its DP result (both entry points are judged on the same graph)
+
+
+def dp_min_max(nodes, wi, both):
+    key = (len(nodes), tuple(sorted(wi.items())), both)
+    if _DP_MEMO[0] != key:
+        _DP_MEMO[0], _DP_MEMO[1] = key, brute_min(nodes, wi, both)
+    return _DP_MEMO[1]
+
+
+def weight_spread(items, dp_max=None):
+    """True iff the graph has two perfect matchings of different total weight (None: not evaluated / no perfect matching)"""
+    w = {}
+    scale = 1
+    for _, x in items:
+        scale = max(scale, Fraction(x).denominator)
+    for (a, b), x in items:
+        k = (min(a, b), max(a, b))
+        if k in w or a == b:
+            return None
+        w[k] = (Fraction(x) * scale).numerator
+    nodes = sorted(set(x for k in w for x in k))
+    if len(nodes) > (dp_max or DP_MAX):
+        return None
+    pos = {x: i for i, x in enumerate(nodes)}
+    r = dp_min_max(nodes, {(pos[a], pos[b]): x for (a, b), x in w.items()}, True)
+    return None if r is None else r[0] != r[1]
+
+
+def direct_eval(items, matching, dp_max=None, both=False):
     """the property's right-hand side evaluated in Python on the dict the matcher was given.
     items: [((ia, ib), weight)], matching: [(ia, ib)]. Returns (status, detail)"""
+    dp_max = dp_max or DP_MAX
     w = {}
     scale = 1
     for _, x in items:
@@ -194,8 +245,10 @@ def direct_eval(items, matching):
     nodes = sorted(set(x for k in w for x in k))
     pos = {x: i for i, x in enumerate(nodes)}
     wi = {(pos[a], pos[b]): x for (a, b), x in w.items()}
-    large = len(nodes) > DP_MAX      # the subset DP is not run: only coverage and edge use are evaluated here
-    mn = None if large else brute_min(nodes, wi)
+    large = len(nodes) > dp_max      # the subset DP is not run: only coverage and edge use are evaluated here
+    mn = None if large else dp_min_max(nodes, wi, both)
+    if both and mn is not None:
+        mn = mn[0]
     if mn is None and not large:
         return 'no-pm', None
     used = [x for p in matching for x in p]
@@ -230,9 +283,15 @@ def run(ctx):
                 're-insertion; structured families (even cycles, paths, ladders, grids, K_nn, pruned K_nn, trees / '
                 'caterpillars with a perfect matching, pruned decoder-like graphs, prisms, chorded cycles, cubes, '
                 'two-component unions) with up to %d nodes over small weight alphabets (e.g. {-2..2}, {-1,0,1}, '
-                '{-1.0,-0.5,0.0,0.5,1.0}, mixed int/float, optionally shifted by a constant); operation histories on ONE '
+                '{-1.0,-0.5,0.0,0.5,1.0}, mixed int/float, optionally shifted by a constant); DENSE-LARGE graphs with 60-190 '
+                'edges (K12, K14, K16, K18, K20, K8,8, K9,9, K10,10, each also minus 1-6 edges) over every alphabet and weight '
+                'kind plus sign-structured kinds (all negative, negated non-negative ints/floats, 1-6 strongly negative edges '
+                'among positive ones, one barely negative edge, non-negative shifted below zero, mixed-sign floats / wide '
+                'ints), all node kinds, each decided by the verified memoised checker (is_min_pm_memo = is_min_pm) and by '
+                'the independent subset DP; operation histories on ONE '
                 'SimpleGraph object (add_edge, g[k]=w, del, pop, popitem, update, |=, setdefault, clear, copies, '
-                'interleaved with mwpm / mwpm_networkx calls on the object or on a dict copy; the caller damages returned '
+                'interleaved with mwpm / mwpm_networkx calls on the object or on a dict copy, fills with 4-10 nodes and with '
+                'complete graphs on 10-12 nodes (45-66 edges); the caller damages returned '
                 'sets; all results read again at the end) judged on the content of the object at each call; '
                 'decoder-shaped graphs recorded from real MWPM/CMWPM/SMWPM decodes; all graphs on 4 '
                 'labelled nodes with weights in a small set exhaustively. nontrivial = >= 6 nodes with >= 2 perfect '
@@ -305,6 +364,19 @@ def run(ctx):
         pmeta.append({'kind': 'struct', 'n': n, 'nodes': nk, 'weights': an, 'density': fam, 'reins': 0,
                       'steps': it % 25 == 0})
 
+    # ---- 1c. DENSE-LARGE graphs (60-190 edges): K12, K14, K16, K18, K20, K_{8,8}, K_{9,9}, K_{10,10}, each also minus a
+    # few edges, over every weight alphabet / kind above plus sign-structured kinds (all negative, negated non-negative, a
+    # few strongly negative edges among positive ones, one barely negative edge, shifted below zero, mixed-sign floats), all
+    # node kinds.  Every graph is decided by the verified memoised checker is_min_pm_memo (= is_min_pm,
+    # Decoders/MatchingMemo.v; engine command `mcheck`: K12 0.02 s, K16 0.3 s, K20 3 s) AND by the independent subset DP;
+    # some 12-node graphs also by the plain constant-space recursion (`fcheck`, Decoders/MatchingMin.v)
+    for it in range(ctx.pick(800, 4000)):
+        shape, wname, n, ops = extra.dense_graph(rng, make_weight, WEIGHT_KINDS)
+        nk = rng.choice(NODE_KINDS)
+        pjobs.append({'nodes': make_nodes(rng, n, nk), 'ops': [(a, b, w, False) for a, b, w in ops], 'steps': False,
+                      'dp_max': DENSE_DP_MAX, 'spread': True})
+        pmeta.append({'kind': 'dense', 'n': n, 'nodes': nk, 'weights': wname, 'density': shape, 'reins': 0, 'steps': False})
+
     # ---- 2. all graphs on 4 labelled nodes, weights from a small set (exhaustive) ------------
     wset = ctx.pick([None, -1, 0, 1], [None, -1, 0, 1, 2.5])
     pairs4 = list(itertools.combinations(range(4), 2))
@@ -313,8 +385,12 @@ def run(ctx):
         pjobs.append({'nodes': [('val', i) for i in range(4)], 'ops': ops, 'steps': False})
         pmeta.append({'kind': 'exhaustive-4', 'n': 4, 'nodes': 'int', 'weights': 'set', 'density': 0, 'reins': 0})
     from harness import decoder_zoo as zoo
-    chunked = list(zoo.chunks(pjobs, 100))
-    for chunk_res, chunk_meta in zip(zoo.run_pool(graph_jobs, chunked), zoo.chunks(pmeta, 100)):
+    # the dense jobs cost 0.01 - 0.8 s each (subset DP): small chunks, dispatched first, the most expensive first
+    didx = sorted((i for i, m_ in enumerate(pmeta) if m_['kind'] == 'dense'), key=lambda i: -pmeta[i]['n'])
+    oidx = [i for i, m_ in enumerate(pmeta) if m_['kind'] != 'dense']
+    groups = list(zoo.chunks(didx, 8)) + list(zoo.chunks(oidx, 100))
+    chunked = [[pjobs[i] for i in g_] for g_ in groups]
+    for chunk_res, chunk_meta in zip(zoo.run_pool(graph_jobs, chunked), [[pmeta[i] for i in g_] for g_ in groups]):
         for c, m_ in zip(chunk_res, chunk_meta):
             c['meta'] = m_
             cases.append(c)
@@ -325,7 +401,10 @@ def run(ctx):
     for it in range(ctx.pick(1500, 12000)):
         hn = rng.choice([4, 6, 6, 8, 8, 10])
         hjobs.append({'seed': rng.getrandbits(48), 'nodes': rng.choice(NODE_KINDS), 'npool': hn + 2, 'nmax': hn})
-    hists = [h for chunk in zoo.run_pool(history_jobs, list(zoo.chunks(hjobs, 50))) for h in chunk]
+    # ... and histories whose fills cross the 64-edge mark (complete graphs on 10-12 nodes: 45-66 edges) on the same object
+    for it in range(ctx.pick(80, 800)):
+        hjobs.append({'seed': rng.getrandbits(48), 'nodes': rng.choice(NODE_KINDS), 'npool': 14, 'nmax': 12, 'dense_max': 12})
+    hists = [h for chunk in zoo.run_pool(history_jobs, list(zoo.chunks(hjobs, 20))) for h in chunk]
 
     # ---- 3. decoder-shaped graphs recorded from real decodes ----------------------------------
     recorded = []
@@ -389,6 +468,9 @@ def run(ctx):
         if r != set():
             ctx.violation('empty', 'empty graph does not yield the empty matching', {'got': repr(r)})
 
+    # dense cases are judged last, the smallest first (so that a replay record is as small as the stream allows)
+    cases.sort(key=lambda c_: c_['meta']['n'] if c_['meta']['kind'] == 'dense' else -1)
+
     # ---- model runs ---------------------------------------------------------------------------
     def gline(items):
         return ';'.join('%d:%d:%s' % (a, b, frac(w)) for (a, b), w in items) or '-'
@@ -396,6 +478,7 @@ def run(ctx):
     def mline(m):
         return ';'.join('%d:%d' % p for p in m) or '-'
     req = []
+    dreq, dcost, fpairs = [], [], []
     for c in cases:
         c['i_build'] = len(req)
         req.append('build ' + (';'.join('%d:%d:%s' % (a, b, frac(w)) for a, b, w in c['ops']) or '-'))
@@ -403,6 +486,21 @@ def run(ctx):
             c['i_steps'] = len(req)
             req.append('build_steps ' + (';'.join('%d:%d:%s' % (a, b, frac(w)) for a, b, w in c['ops']) or '-'))
         c['i_chk'] = []
+        if c['meta']['kind'] == 'dense':
+            # all_pms is never materialised for these: `mcheck` (an empty matching when the call raised: only npm is read)
+            for wi, r in enumerate(c['res']):
+                if wi == 1 and c['res'][0] == r:
+                    c['i_chk'].append(c['i_chk'][0])
+                    continue
+                c['i_chk'].append(len(dreq))
+                dl = '%s %s' % (gline(c['items']), mline(r) if isinstance(r, list) else '-')
+                dreq.append('mcheck ' + dl)
+                dcost.append(extra.DENSE_ENGINE_COST[c['meta']['density'].split('-')[0]])
+                if c['meta']['n'] == 12 and len(fpairs) < ctx.pick(40, 400):
+                    fpairs.append((len(dreq) - 1, len(dreq)))       # the same request to the plain recursion
+                    dreq.append('fcheck ' + dl)
+                    dcost.append(0.15)
+            continue
         for wi, r in enumerate(c['res']):
             if isinstance(r, list):
                 if wi == 1 and c['res'][0] == r:
@@ -419,11 +517,36 @@ def run(ctx):
         req.append('hist ' + (';'.join(h['hops']) or '-'))
         for ev in h['events']:
             ev['i_chk'] = len(req)
-            if isinstance(ev['res'], list):
+            if len(set(x for k, _ in ev['items'] for x in k)) >= 11:
+                # all_pms has >= 10^4 elements on a dense graph: the memoised checker (same boolean function)
+                req.append('mcheckd %s %s' % (gline(ev['items']), mline(ev['res']) if isinstance(ev['res'], list) else '-'))
+            elif isinstance(ev['res'], list):
                 req.append('check %s %s' % (gline(ev['items']), mline(ev['res'])))
             else:
                 req.append('npms ' + gline(ev['items']))
-    out = zoo.model_parallel(ctx, 'c13', req)
+    # the dense requests run beside the others, dealt to 16 engine processes by measured cost (longest first)
+    from concurrent.futures import ThreadPoolExecutor
+    nth = 16
+    parts, loads = [[] for _ in range(nth)], [0.0] * nth
+    for i in sorted(range(len(dreq)), key=lambda i_: -dcost[i_]):
+        j = loads.index(min(loads))
+        parts[j].append(i)
+        loads[j] += dcost[i]
+    parts = [p_ for p_ in parts if p_]
+    with ThreadPoolExecutor(max_workers=nth) as ex:
+        futs = [ex.submit(ctx.model, 'c13', [dreq[i] for i in p_], 2400) for p_ in parts]
+        out = zoo.model_parallel(ctx, 'c13', req)
+        dout = [None] * len(dreq)
+        for p_, fu in zip(parts, futs):
+            for i, o in zip(p_, fu.result()):
+                dout[i] = o
+
+    out_main, req_main = out, req
+    for im, if_ in fpairs:      # memoised vs plain recursion (is_min_pm_memo = is_min_pm_fast is proved; this checks the engine)
+        fm, ff = (dict(t.split('=') for t in dout[i_].split(' ')) for i_ in (im, if_))
+        ctx.cmp('engine mcheck vs fcheck', dreq[im][:400], *[' '.join('%s=%s' % (k_, f_[k_]) for k_ in ('npm', 'perfect', 'min', 'w'))
+                                                                for f_ in (ff, fm)])
+        ctx.count(None, False, 'dense/engine-cross-check(memo vs plain recursion)')
 
     def canon_graph(s):
         if s == '-':
@@ -434,14 +557,15 @@ def run(ctx):
             r.append(((int(a), int(b)), parse_q(w)))
         return r
 
-    def judge(kind, meta, items, r, ic, ev, rep, fname, key, sample_ok):
+    def judge(kind, meta, items, r, ic, ev, rep, fname, key, sample_ok, out=None, req=None, spread=None):
         """one matcher call: r = what it returned on the graph `items`, out[ic] = the verified checker's verdict (or the
         number of perfect matchings when the call raised), ev = the independent evaluation. Returns the checker fields"""
+        out, req = (out_main if out is None else out), (req_main if req is None else req)
         st, detail = ev
         large = st.startswith('large')
         if not isinstance(r, list):
             # an exception or a non-set: the model decides whether the graph is in the property's domain
-            npm = int(out[ic])
+            npm = int(out[ic]) if out[ic].isdigit() else int(dict(t.split('=') for t in out[ic].split(' '))['npm'])
             ctx.count(None, False, kind + '/raised')
             if not large and (npm == 0) != (st == 'no-pm') and st != 'reversed-duplicate':
                 ctx.cmp('all_pms = [] vs independent DP', req[ic][:400], st, 'no-pm' if npm == 0 else 'has-pm')
@@ -457,8 +581,10 @@ def run(ctx):
                 ctx.cmp('all_pms = [] vs independent DP', req[ic][:400], st, 'no-pm')
             return None
         meta = dict(meta, n=len(set(x for k, _ in items for x in k)))
-        nontriv = meta['n'] >= 6 and npm >= 2 and f['distinctw'] == '1'
-        if kind == 'struct':
+        nontriv = meta['n'] >= 6 and npm >= 2 and (f['distinctw'] == '1' if spread is None else bool(spread))
+        if kind == 'dense':
+            label = 'dense/%s' % meta['density']
+        elif kind == 'struct':
             label = 'struct/%s' % meta['density']
             ctx.hist['struct-alphabet/%s' % meta['weights']] += 1
         elif kind == 'hist':
@@ -480,7 +606,8 @@ def run(ctx):
         elif f['min'] != '1':
             ctx.violation('not-minimum', '%s: returned perfect matching has weight %s but %s has the smaller '
                           'weight %s (verified checker is_min_pm = false)'
-                          % (fname, parse_q(f['w']), f['counter'], parse_q(f['minw'])), repv)
+                          % (fname, parse_q(f['w']), 'another perfect matching' if f['counter'] == '_' else f['counter'],
+                             parse_q(f['minw'])), repv)
         # independent evaluation must agree with the verified checker
         if large:
             ctx.count(None, False, kind + '/larger-than-DP(checker only)')
@@ -495,6 +622,7 @@ def run(ctx):
         return f
 
     kern = []
+    dkern = []
     for c in cases:
         meta = c['meta']
         kind = meta['kind']
@@ -521,9 +649,24 @@ def run(ctx):
             ctx.violation('reversed-duplicate', 'SimpleGraph holds an edge together with its reverse', rep)
         elif got != last:
             ctx.violation('last-weight', 'SimpleGraph edge does not carry the weight of its last insertion', rep)
+        if kind == 'dense':
+            ws_ = [w for _, w in c['items']]
+            sign = 'all-negative' if max(ws_) < 0 else ('non-negative' if min(ws_) >= 0 else
+                                                        ('non-positive' if max(ws_) <= 0 else 'mixed-sign'))
+            ctx.hist['dense-sign/%s' % sign] += 1
+            ctx.hist['dense-weights/%s' % meta['weights']] += 1
+            ctx.hist['dense-edges>=64' if len(c['items']) >= 64 else 'dense-edges<64'] += 1
         for which, (r, ic) in enumerate(zip(c['res'], c['i_chk'])):
             fname = ('mwpm', 'mwpm_networkx')[which]
-            f = judge(kind, meta, c['items'], r, ic, c['eval'][which], rep, fname, (tuple(c['ops'][:40]), which),
+            key = (tuple(c['ops'][:40]), which)
+            if kind == 'dense':
+                f = judge(kind, meta, c['items'], r, ic, c['eval'][which], rep, fname, key, False, out=dout, req=dreq,
+                          spread=c.get('spread'))
+                if f and which == 0 and f['min'] == '1' and meta['n'] == 12 and len(dkern) < 3 and min(ws_) < 0 < max(ws_) \
+                        and all(Fraction(w).denominator <= 8 and abs(w) < 10 ** 4 for w in ws_):
+                    dkern.append((c['items'], r))
+                continue
+            f = judge(kind, meta, c['items'], r, ic, c['eval'][which], rep, fname, key,
                       sample_ok=which == 0)
             if f and which == 0 and kind == 'gen' and len(set(x for k, _ in c['items'] for x in k)) <= 6 \
                     and len(kern) < 40 and f['min'] == '1' and not dup:
@@ -599,16 +742,23 @@ def run(ctx):
         cg = coq_list(['((%d, %d), %s)' % (a, b, q(w)) for (a, b), w in its])
         cm = coq_list(['(%d, %d)' % p for p in m])
         items.append('(geqb (build %s) %s && is_min_pm %s %s)' % (cops, cg, cg, cm))
-    text = ('From Coq Require Import List Bool Arith QArith.\nFrom QV Require Import Decoders.Matching Decoders.MatchingHist.\n'
+    ditems = []
+    for its, m in dkern:
+        # dense 12-node graphs with mixed-sign weights: the memoised checker on the scaled graph, inside the kernel
+        cg = coq_list(['((%d, %d), %s)' % (a, b, q(w)) for (a, b), w in its])
+        ditems.append('(is_min_pm_big %s %s)' % (cg, coq_list(['(%d, %d)' % p_ for p_ in m])))
+    text = ('From Coq Require Import List Bool Arith QArith.\nFrom QV Require Import Decoders.Matching Decoders.MatchingHist '
+            'Decoders.MatchingMemo.\n'
             'Import ListNotations.\nOpen Scope nat_scope.\n'
             'Definition qeqb (a b : Q) := Z.eqb (Qnum a) (Qnum b) && Pos.eqb (Qden a) (Qden b).\n'
             'Fixpoint geqb (g h : graph) : bool := match g, h with [], [] => true | (k, w) :: g\', (k\', w\') :: h\' => '
             'keyb k k\' && qeqb w w\' && geqb g\' h\' | _, _ => false end.\n'
-            'Definition checks : list bool :=\n [' + ';\n  '.join(items + hitems) + '].\n'
+            'Definition checks : list bool :=\n [' + ';\n  '.join(items + hitems + ditems) + '].\n'
             'Example corr : forallb (fun b => b) checks = true.\nProof. vm_compute. reflexivity. Qed.\n')
     ctx.kernel_cases('sample', text)
     ctx.extra['kernel_cases'] = len(items)
     ctx.extra['kernel_history_cases'] = len(hitems)
+    ctx.extra['kernel_dense_cases'] = len(ditems)
 
 
 def replay(path):
@@ -628,12 +778,26 @@ def replay(path):
         g.add_edge(a, b, f.numerator if f.denominator == 1 else float(f))
     ctx = Ctx('C13', 'quick', 0)
     bad = 0
+    nn = len(set(x for k in g for x in k))
     for fn in (gt.mwpm, gt.mwpm_networkx):
-        m = sorted(fn(g))
-        line = 'check %s %s' % (';'.join('%d:%d:%s' % (a, b, frac(w)) for (a, b), w in g.items()) or '-',
-                                ';'.join('%d:%d' % p for p in m) or '-')
+        try:
+            m = sorted(fn(g))
+        except Exception as e:  # noqa
+            print(fn.__name__, 'raised', type(e).__name__, e)
+            m = []
+        items = list(g.items())
+        st = direct_eval(items, m, 22)
+        print(fn.__name__, m, 'independent evaluation (subset DP):', st)
+        if st[0] in ('not-perfect', 'not-minimum'):
+            bad = 1
+        if nn > 22:
+            continue            # beyond the engine's reach in reasonable time: the DP above decides
+        # the verified checker: enumeration up to 10 nodes, the memoised one (same boolean) beyond
+        line = '%s %s %s' % ('check' if nn <= 10 else 'mcheck',
+                             ';'.join('%d:%d:%s' % (a, b, frac(w)) for (a, b), w in items) or '-',
+                             ';'.join('%d:%d' % p for p in m) or '-')
         o = ctx.model('c13', [line])[0]
-        print(fn.__name__, m, o)
+        print(fn.__name__, o)
         f = dict(t.split('=') for t in o.split(' '))
         if f['npm'] != '0' and f['min'] != '1':
             bad = 1
@@ -650,10 +814,15 @@ def replay_hist(r):
     bad = 0
     for ev in h['events']:
         gl = ';'.join('%d:%d:%s' % (a, b, frac(w)) for (a, b), w in ev['items']) or '-'
+        big = len(set(x for k, _ in ev['items'] for x in k)) >= 11     # the memoised checker (same boolean function)
         if isinstance(ev['res'], list):
-            o = ctx.model('c13', ['check %s %s' % (gl, ';'.join('%d:%d' % p for p in ev['res']) or '-')])[0]
+            o = ctx.model('c13', ['%s %s %s' % ('mcheckd' if big else 'check', gl,
+                                                ';'.join('%d:%d' % p for p in ev['res']) or '-')])[0]
             f = dict(t.split('=') for t in o.split(' '))
             fail = f['npm'] != '0' and f['min'] != '1'
+        elif big:
+            o = ctx.model('c13', ['mcheck %s -' % gl])[0]
+            fail = dict(t.split('=') for t in o.split(' '))['npm'] != '0'
         else:
             o = ctx.model('c13', ['npms ' + gl])[0]
             fail = o != '0'
